@@ -368,6 +368,44 @@ impl Check for C08 {
             }
         }
         flush(ctx, &mut cases, self)?;
+        // (3a) redundant parentheses around operands that span lines (function literals with several
+        // statements, literals with line breaks, calls with continuation breaks): same tree
+        for inner in [
+            "fn () {\ny := 1\nreturn y\n}",
+            "fn (p) {\nprint(p)\n-1 .. p\nreturn p\n}",
+            "fn () {\nif a {\nreturn 1\n}\nreturn 2\n}",
+            "[\n1,\n2\n]",
+            "{\n\"k\": 1,\n\"l\": fn () {\nq := 2\nreturn q\n}\n}",
+            "f(\na,\nb)",
+            "a +\nb",
+            "$\"l1\nl2 ${a}\"",
+        ] {
+            for ctxt in ["x := @\n", "x := @ + 1\n", "x := [@]\n", "x := f(@)\n", "x := {\"k\": @}\n", "return @\n", "x := @ == @\n"] {
+                if inner.contains(" +\n") && (ctxt.contains("@ +") || ctxt.contains("@ ==")) {
+                    continue; // the parentheses are not redundant there
+                }
+                let base = ctxt.replace('@', inner);
+                for wrapped in [format!("({})", inner), format!("(({}))", inner), format!("( {} )", inner), format!("(\n{})", inner)] {
+                    if wrapped.starts_with("(\n") && !ctxt.starts_with("x := @") {
+                        continue;
+                    }
+                    let text = ctxt.replace('@', &wrapped);
+                    let expected = match parse_prog(&base) {
+                        Ok(p) => dump_prog(&p),
+                        Err(_) => continue,
+                    };
+                    let mut c = Case::new(text, T_TREE, expected);
+                    c.mode = Mode::Ast;
+                    c.no_ref = true;
+                    cases.push(c);
+                }
+            }
+            // called immediately, with and without parentheses around the callee
+            if inner.starts_with("fn") {
+                cases.push(Case::new(format!("a := true\nprint(({})(5))\nprint(\"end\")\n", inner), T_EVAL, "a parenthesised multi-line function literal called immediately".to_string()));
+            }
+        }
+        flush(ctx, &mut cases, self)?;
         // (3b) any number of redundant parentheses: n pairs around a name, around a whole operation
         // and around its right operand leave the tree unchanged (n up to 64, then selected sizes)
         let mut depths: Vec<usize> = (1..=64).collect();
